@@ -1730,3 +1730,108 @@ Proof.
     assert (Hne : (r_term r =? m_term m) = false) by (apply N.eqb_neq; lia).
     rewrite Hne in F5. repeat split; assumption.
 Qed.
+
+(* (6) a leader's tick: the term never changes; the role changes only at an
+   election-timeout boundary with check_quorum on and no quorum recently active *)
+Theorem leader_tick r r' b :
+  r_state r = Leader -> tick r = Ok (r', b) ->
+  r_term r' = r_term r /\ cfg_of r' = cfg_of r /\
+  ((r_state r' = Leader /\ r_leader_id r' = r_leader_id r) \/
+   (r_election_timeout r <= r_election_elapsed r + 1 /\ r_check_quorum r = true /\
+    check_quorum_active r = false /\ r_state r' = Follower /\ r_leader_id r' = INVALID_ID)).
+Proof.
+  intros Hs. unfold tick. rewrite Hs. unfold tick_heartbeat.
+  set (r0 := r <| r_heartbeat_elapsed := r_heartbeat_elapsed r + 1 |>
+               <| r_election_elapsed := r_election_elapsed r + 1 |>).
+  intros H. ib H y Hy. destruct y as [r1 hr].
+  assert (P1 : r_term r1 = r_term r /\ cfg_of r1 = cfg_of r /\
+     ((r_state r1 = Leader /\ r_leader_id r1 = r_leader_id r) \/
+      (r_election_timeout r <= r_election_elapsed r + 1 /\ r_check_quorum r = true /\
+       check_quorum_active r = false /\ r_state r1 = Follower /\ r_leader_id r1 = INVALID_ID))).
+  { clear H. dtop Hy; [|okinv Hy; cbn; rewrite Hs; auto].
+    apply N.leb_le in Heqb0. cbn in Heqb0.
+    ib Hy z Hz. destruct z as [ra ha]. okinv Hy.
+    assert (Pa : r_term ra = r_term r /\ cfg_of ra = cfg_of r /\
+       ((r_state ra = Leader /\ r_leader_id ra = r_leader_id r) \/
+        (r_election_timeout r <= r_election_elapsed r + 1 /\ r_check_quorum r = true /\
+         check_quorum_active r = false /\ r_state ra = Follower /\ r_leader_id ra = INVALID_ID))).
+    { destruct (r_check_quorum (r0 <| r_election_elapsed := 0 |>)) eqn:Ecq;
+        [|okinv Hz; cbn; rewrite Hs; auto].
+      ib Hz w Hw. okinv Hz. destruct w as [rb cb]. cbn [fst].
+      apply leader_step in Hw; [|exact Hs|left; cbn; lia].
+      destruct Hw as (A1 & A2 & [A3|(_ & A4 & A5 & A6)]).
+      - split; [exact A1|]. split; [exact A2|]. left. exact A3.
+      - split; [exact A1|]. split; [exact A2|]. right. repeat split; assumption. }
+    destruct Pa as (A1 & A2 & A3).
+    destruct (is_leader ra && _); [|auto]. cbn. auto. }
+  destruct P1 as (A1 & A2 & A3).
+  dtop H; [okinv H; auto|].
+  dtop H; [|okinv H; auto].
+  ib H z Hz. okinv H. destruct z as [rb cb]. cbn [fst].
+  assert (Hs1 : r_state r1 = Leader).
+  { apply negb_false_iff in Heqb0. unfold is_leader in Heqb0.
+    destruct (r_state r1); try discriminate. reflexivity. }
+  apply leader_step in Hz; [|exact Hs1|left; cbn; lia].
+  destruct Hz as (B1 & B2 & [(B3 & B4)|(T & _)]); [|discriminate].
+  unfold cfg_of in *. cbn in B1, B2, B4.
+  split; [congruence|]. split; [congruence|]. left. split; [exact B3|].
+  destruct A3 as [(_ & A4)|(_ & _ & _ & S & _)]; congruence.
+Qed.
+
+(* an input under which a leader keeps its place *)
+Definition leader_safe (r : raft) (i : input) : Prop :=
+  match i with
+  | ITick => r_election_timeout r <= r_election_elapsed r + 1 -> r_check_quorum r = true ->
+             check_quorum_active r = true
+  | IStep m => (m_term m <= r_term r \/ exempt m = true \/ lease_drop r m = true) /\
+               (m_type m = MsgCheckQuorum -> check_quorum_active r = true)
+  end.
+
+Fixpoint leader_safe_run (r : raft) (ins : list input) : Prop :=
+  match ins with
+  | [] => True
+  | i :: rest => leader_safe r i /\ forall r1, apply_input r i = Ok r1 -> leader_safe_run r1 rest
+  end.
+
+Theorem leader_safe_input r i r' :
+  r_state r = Leader -> leader_safe r i -> apply_input r i = Ok r' ->
+  r_state r' = Leader /\ r_term r' = r_term r /\ r_leader_id r' = r_leader_id r /\
+  cfg_of r' = cfg_of r.
+Proof.
+  intros Hs Hq H. destruct i as [m|]; cbn [apply_input] in H; ib H y Hy; okinv H;
+    destruct y as [r1 c]; cbn [fst].
+  - destruct Hq as [Q1 Q2]. apply leader_step in Hy; [|exact Hs|exact Q1].
+    destruct Hy as (A1 & A2 & [(A3 & A4)|(T & A & _)]); [auto|].
+    specialize (Q2 T). congruence.
+  - unfold leader_safe in Hq. apply leader_tick in Hy; [|exact Hs].
+    destruct Hy as (A1 & A2 & [(A3 & A4)|(B1 & B2 & B3 & _)]); [auto|].
+    specialize (Hq B1 B2). congruence.
+Qed.
+
+(* (6, window form) over any sequence of ticks and messages in which every
+   election-timeout boundary (and every MsgCheckQuorum) sees a quorum recently active
+   and no message carries an adoptable higher term, the leader keeps role, term and
+   leader id *)
+Theorem leader_window : forall ins r r',
+  r_state r = Leader -> leader_safe_run r ins -> run r ins = Ok r' ->
+  r_state r' = Leader /\ r_term r' = r_term r /\ r_leader_id r' = r_leader_id r /\
+  cfg_of r' = cfg_of r.
+Proof.
+  induction ins as [|i rest IH]; intros r r' Hs Hq H; cbn [run] in H.
+  - okinv H. auto.
+  - destruct Hq as [Q1 Q2]. ib H r1 H1.
+    pose proof (leader_safe_input _ _ _ Hs Q1 H1) as (A1 & A2 & A3 & A4).
+    specialize (IH r1 r' A1 (Q2 r1 H1) H). destruct IH as (B1 & B2 & B3 & B4).
+    repeat split; congruence.
+Qed.
+
+(* the lease keeps a follower's term too: a follower that hears from its leader often
+   enough ignores every higher-term (pre-)vote request -- one step *)
+Theorem follower_lease_step r m r' c :
+  lease_drop r m = true -> r_term r < m_term m -> step r m = Ok (r', c) -> r' = r /\ c = E_OK.
+Proof.
+  intros D L H. rewrite step_eq in H. unfold step_pre in H.
+  assert (Hz : (m_term m =? 0) = false) by (apply N.eqb_neq; lia).
+  assert (Hl : (r_term r <? m_term m) = true) by (apply N.ltb_lt; exact L).
+  rewrite Hz, Hl, D in H. cbn [bind] in H. okinv H. split; reflexivity.
+Qed.
